@@ -22,7 +22,7 @@ CLAIMED = {
                 '(6) every Square(file, rank) built by the table initialiser has both coordinates inside 0..7 and the shift formulas of the king / knight / pawn attack tables are exactly those attack sets for all 64 squares. '
                 'direction classes pair with slider kinds, and the en-passant rank scan starts outside the pawn pair. Right level: these '
                 'are exactly the places where a generator can be wrong for one geometry only - the rule checks every square and every '
-                'board-atom assignment at once, which no sample of positions does. Added: coverage of the promotion re-scan of givesCheck as a direction x piece table evaluated from the guards.',
+                'board-atom assignment at once, which no sample of positions does. Added: coverage of the promotion re-scan of givesCheck as a direction x piece table evaluated from the guards. Added: (2) no condition other than the castling rules (or a givesCheck filter on the move itself) restricts a generated castling move.',
         'design_ref': 'DESIGN.md section 2, C01',
         'note': TB + ' Takes the attack / direction / between tables (BitBoard::staticInitialize) and Position::makeMove as given; does not decide '
                      'agreement of the verdicts with playing the move for every position (value-level) nor absence of duplicates.',
@@ -39,7 +39,7 @@ CLAIMED = {
                 '(8) en-passant mask tables and guard; (9) every fresh en-passant store is normalised as readFEN does. Three genuine violations on the pinned '
                 'tree are listed in known_findings.json (compact form: 8-bit clock, 16-bit move number; makeMove keeps an illegal en-passant square). Right level: "after any history the '
                 'incremental value equals the recomputed one" holds iff every mutator updates every derived attribute consistently - a '
-                'finite set of structural obligations that cover every history, where a random walk samples. (10) one-argument setters of Position store their argument unchanged.',
+                'finite set of structural obligations that cover every history, where a random walk samples. (10) one-argument setters of Position store their argument unchanged. (11) makeSEEMove / unMakeSEEMove remove and restore the same en-passant victim, evaluated for every mover piece and every outcome of the opaque comparisons.',
         'design_ref': 'DESIGN.md section 2, C02',
         'note': TB + ' Does not decide value-level equalities (hash equality of rule-equal positions beyond the en-passant normal form).',
         'technique': 'custom static analysis: write-set/effect analysis, colour-mirror and sibling agreement on CFG regions, dominance-based save/restore and pairing, constant evaluation over the material polytope',
@@ -66,7 +66,7 @@ CLAIMED = {
                 'TT ply shift (store at p1, read at p2), the win/loss classification and the 16-bit range. This is a genuine necessary '
                 'condition of "mate N means mate in N": any disagreement between an encoder and a decoder shifts every announced '
                 'distance. Second clause (K3 typestate): a score found by searching after a null move never leaves negaScout (return, hash store, search-tree info) unless it was shown not to be a win score or replaced by a non-win bound. Right level for the first clause: a finite arithmetic agreement; that a reported mate exists at all is game-tree '
-                'semantics and is not claimed. Added clauses (4) bound-type discipline of adopted entry scores and isCutOff, (5) ply-shift codec and decode / re-store ply agreement (shared with C08). (6) every hash store of negaScout happens only in an unrestricted search.',
+                'semantics and is not claimed. Added clauses (4) bound-type discipline of adopted entry scores and isCutOff, (5) ply-shift codec and decode / re-store ply agreement (shared with C08). (6) every hash store of negaScout happens only in an unrestricted search. (7) every forward-pruning skip in negaScout\'s move loop requires a non-losing running maximum (!isLoseScore(best)), so a node never reports \'mated\' with unsearched quiet defences.',
         'design_ref': 'DESIGN.md section 2, C04',
         'note': TB + ' Decides only the encoding agreement, not the existence of the announced mates nor the soundness of pruning near mate scores.',
         'technique': 'custom static analysis: exhaustive constant evaluation of extracted expression trees over a finite domain (encoder/decoder composition)',
@@ -84,7 +84,7 @@ CLAIMED = {
                 'including ponder + ponderhit (found and fixed defect D11); (13) lock discipline of the session output stream: every '
                 'insertion holds one common mutex, which is never re-acquired or held across a wait (found and fixed defect D10). '
                 'Right level: these are exactly the failure shapes the property names (crash before initialisation, two/zero '
-                'bestmoves, output after bestmove), and they are visible in the shape of the code for all histories at once. C05.5 now decides that every way out of the protocol loop stops a running search (state flow); (14) every strength-limiting parameter forces a single search thread. (15) wait loops poll with a handler that counts the acknowledgements (shared with C10.10).',
+                'bestmoves, output after bestmove), and they are visible in the shape of the code for all histories at once. C05.5 now decides that every way out of the protocol loop stops a running search (state flow); (14) every strength-limiting parameter forces a single search thread. (15) wait loops poll with a handler that counts the acknowledgements (shared with C10.10). (16) = C10.11: the two computations of `infinite` agree.',
         'design_ref': 'DESIGN.md section 2, C05',
         'note': TB + ' Assumes: bad_alloc from ordinary allocation and the embedded-network integrity error are out of scope (named exemptions).',
         'technique': 'custom static analysis: null typestate dataflow + exception-flow + must-pass-through/who-may-call over clang AST/CFG/call graph',
@@ -147,7 +147,7 @@ CLAIMED = {
                 'The options hand-over is decided by the completion-flag typestate (optionsSetFinished set only under the mutex with the pending queue and every swapped-out batch known empty). '
                 'variables written after start-up. Right level: race freedom quantifies over all interleavings; a discipline check is '
                 'interleaving-independent and covers code paths a TSan run never executes. It decides the discipline, not the memory-model '
-                'theorem: rows justified by message-protocol ordering are listed as assumptions. Added clause (6): in Communicator::poll every unlocked walk of children is followed by a lock acquisition (the release that orders it before removeChild). (7) option-reading calls on the go paths come after waitOptionsSet (shared with C06.4).',
+                'theorem: rows justified by message-protocol ordering are listed as assumptions. Added clause (6): in Communicator::poll every unlocked walk of children is followed by a lock acquisition (the release that orders it before removeChild). (7) option-reading calls on the go paths come after waitOptionsSet (shared with C06.4). (8) the start-up seeding of the lazily filled maxSubDTM map covers every pawn split up to colour mirroring (loop evaluated), so search threads only look it up.',
         'design_ref': 'DESIGN.md section 2, C09 and Appendix A',
         'note': TB + ' Does not decide race freedom in the C++ memory-model sense for the whole engine; HB-protocol rows are assumptions (listed in the evidence).',
         'technique': 'custom static analysis: lock-set dataflow (K6), field-type obligations (K7), thread-role call-graph reachability (K8), dominance-based publication checks (K2), frozen who-may-write table for static storage (K5)',
@@ -162,7 +162,7 @@ CLAIMED = {
                 'ack->poll until acknowledged, quit->poll until acknowledged, flag-sensitive "a search that ran is stopped"; (6) a wake-up '
                 'consumed by the engine thread\'s inner wait loop is re-armed or pending options are handled before it sleeps again; (7) the completion-flag typestate of optionsSetFinished (shared with C09.4). Right '
                 'level: these are the necessary structural conditions of "no lost wake-up / no stale result" for every interleaving; the '
-                'composed liveness property itself is model-checking territory and is not claimed. Added clause (9): the upward acknowledgement is sent only under a test of everything has<X>Ack() depends on. (10) agreement between acknowledgement wait loops and the handlers they poll with.',
+                'composed liveness property itself is model-checking territory and is not claimed. Added clause (9): the upward acknowledgement is sent only under a test of everything has<X>Ack() depends on. (10) agreement between acknowledgement wait loops and the handlers they poll with. (11) startSearch and ponderHit compute `infinite` from the same conjuncts.',
         'design_ref': 'DESIGN.md section 2, C10',
         'note': TB + ' Does not decide absence of deadlock / lost wake-up over all interleavings of the composed protocol.',
         'technique': 'custom static analysis: lock-set dataflow, condition-variable discipline, must-pass-through / loop-shape rules on the CFG, sibling agreement of purge predicates',
@@ -189,7 +189,7 @@ CLAIMED = {
                 'nothing and after the whole-range draw sweep, and every time/stop test leads to return false; (3) exhaustive constant '
                 'evaluation over the 8-bit state domain shows the three answer predicates disjoint and false on every unfinished state, '
                 'and get(set(n)) == n; (4) region size/alignment/placement constants agree with the men guard. Right level: the abort '
-                'clause is a typestate property of one class, decidable for every abort point at once; distances themselves are value-level. Added clause (7): adjacent-duplicate filters of the generator and sortedness of the neighbour lists. (8) un-capture call order agrees with the special cases of TBIndex::setSquare.',
+                'clause is a typestate property of one class, decidable for every abort point at once; distances themselves are value-level. Added clause (7): adjacent-duplicate filters of the generator and sortedness of the neighbour lists. (8) un-capture call order agrees with the special cases of TBIndex::setSquare. (7, extended) every neighbour-list loop of generate() skips adjacent duplicates, or the list is cut at std::unique where it is sorted.',
         'design_ref': 'DESIGN.md section 2, C12',
         'note': TB + ' Does not decide the exactness of distance-to-mate values.',
         'technique': 'custom static analysis: typestate dataflow with sibling-method summaries, must-pass-through on the CFG, exhaustive constant evaluation over an 8-bit domain, constant agreement',
@@ -202,7 +202,7 @@ CLAIMED = {
                 '(2) aggressive probing is enabled only on the updateTB() == true path and probes respect minProbeDepth; (3) the PV '
                 'extension appends tablebase moves only inside the 50-move limit and only moves that keep the tablebase score. Right '
                 'level: the "not announced beyond the limit" clause is a gate-agreement fact for all positions and clocks; exact distances '
-                'and move choice are value-level (C12) and not claimed. Added clauses (5) generator typestate (shared with C12.1) and (6) a freshly generated table is consulted before the clock can abort the search (found and fixed defect D16). (7) placement order of the probe index (shared with C12.8).',
+                'and move choice are value-level (C12) and not claimed. Added clauses (5) generator typestate (shared with C12.1) and (6) a freshly generated table is consulted before the clock can abort the search (found and fixed defect D16). (7) placement order of the probe index (shared with C12.8). (8) = C12.7 duplicate filters present in every neighbour-list loop.',
         'design_ref': 'DESIGN.md section 2, C13',
         'note': TB + ' Does not decide exactness of reported distances or move choice.',
         'technique': 'custom static analysis: guard-set / sibling agreement of the probe blocks, constant evaluation of the margin function, dominance',
@@ -241,7 +241,7 @@ CLAIMED = {
                 'getMove; the built-in book promotion tables are inverse (constant evaluation over all codes); (3) a failed read zero-fills '
                 'exactly the bytes read before decoding, the binary search and the scan only touch indices inside the file, only entries '
                 'stored under the position key are offered. Right level: "for any file" quantifies over inputs; legality of the answer '
-                'follows from the validate-before-return structure for every file content. (4) the weight accumulator holds the largest total a file can produce and the random pick is defined for it (found and fixed defect D12). Added clause (5): file positions (entry count, indices, seek offset) are 64-bit quantities (found and fixed defect D15). (6) the weighted pick chooses entry k for exactly weight(k) draws.',
+                'follows from the validate-before-return structure for every file content. (4) the weight accumulator holds the largest total a file can produce and the random pick is defined for it (found and fixed defect D12). Added clause (5): file positions (entry count, indices, seek offset) are 64-bit quantities (found and fixed defect D15). (6) the weighted pick chooses entry k for exactly weight(k) draws. (1, extended) the legality filter of getBookMove is executed unconditionally.',
         'design_ref': 'DESIGN.md section 2, C18',
         'note': TB + ' Assumes the legal move generator is correct (C01). Does not decide that a corrupt file never yields a legal-but-wrong move.',
         'technique': 'custom static analysis: validated-candidate typestate with per-iteration flag reset, dominance, inverse switch tables, constant evaluation, index-bound structure',
